@@ -529,11 +529,36 @@ def handleU (behs items : String) : String :=
       | some none => "same r=" ++ r
       | none => "err " ++ (match o.exc with | some e => e.name | none => "TraitError") ++ " r=" ++ r
 
+/-- `N|outer|ownerMeta`: fate of the values of the child's traits (`a_none`, `a_deep`, `a_shallow`,
+`a_ref`, the values of `opts = Dict(Str, Any)` - no metadata -, `lock` - uncopyable, no metadata). -/
+def handleN (outer ownerMeta : String) : String :=
+  let meta? : String → Option (Option CopyMode)
+    | "-" => some none | "r" => some (some .ref) | "s" => some (some .shallow) | "d" => some (some .deep)
+    | _ => none
+  let outer? : Option Outer := match words outer with
+    | ["clone", "n"] => some (.clone none) | ["clone", "s"] => some (.clone (some .shallow))
+    | ["clone", "d"] => some (.clone (some .deep)) | ["deepcopy"] => some .deepcopy
+    | ["pickle", _] => some .pickle
+    | _ => none
+  let showF : Fate → String
+    | .same => "same" | .shallow => "shallow" | .deep => "deep" | .lost => "lost"
+  match outer?, meta? (clean ownerMeta) with
+  | some o, some om =>
+    let f (cm : Option CopyMode) (u : Bool) := showF (nestedTraitFate o om cm u)
+    -- the values INSIDE the Dict: shared unless the dict is copied deeply (a shallow copy keeps them)
+    let optsF := match nestedTraitFate o om none false with | .deep => "deep" | _ => "same"
+    s!"a_none={f none false} a_deep={f (some .deep) false} a_shallow={f (some .shallow) false} " ++
+      s!"a_ref={f (some .ref) false} opts={optsF}" ++
+      (match o with | .pickle => "" | _ => s!" lock={f none true}")
+  | _, _ => "bad-case"
+
 def handle (line : String) : String :=
   match (clean line).splitOn "|" with
   | ["P", decls, hist, copies] => handleP decls hist copies
   | ["T", ops] => handleT ops
   | ["R", cfg, ops] => handleR cfg ops
+  | ["N", outer, ownerMeta] => handleN outer ownerMeta
+  | ["N", outer, ownerMeta, _] => handleN outer ownerMeta
   | ["U", behs, items] => handleU behs items
   | ["U", behs, items, _] => handleU behs items
   | _ => "bad-case"
